@@ -99,6 +99,8 @@ struct Totals {
   delivered: u64,
   frames: u64,
   max_frame_clocks: u64,
+  frame_margin_min: u64,
+  frame_synchronous: u64,
   static_checked: u64,
   static_ambiguous: u64,
   carried_five: u64,
@@ -317,10 +319,30 @@ fn check_program(ctx: &mut Ctx, prog: &program::Program, pidx: u64, stepper: Ste
   // --- rule 6: run_frame terminates within two frame periods plus one block (in emulated time)
   // (the program with the 12 000-instruction block gets more calls and a larger "one block")
   let long_blocks = prog.description.starts_with("cache pressure");
-  for _ in 0..(if long_blocks { 40 } else { 3 }) {
+  let longest = prog.description.starts_with("long duration") || prog.description.starts_with("frame synchronous");
+  // "plus one block": no block of the generated programs costs more than 2000 machine cycles,
+  // the 12 000-instruction slide 12 001, a bank of PUSH BC 65536 (+5 after a dispatch)
+  let max_block: u64 = if longest {
+    65_541
+  } else if long_blocks {
+    13_000
+  } else {
+    2000
+  };
+  for _ in 0..(if long_blocks || longest { 40 } else { 3 }) {
     let pc = core.registers.ip as u16;
-    // "plus one block": no block of the generated programs costs more than 2000 machine cycles
-    let bound = 2 * FRAME + 4 * (if long_blocks { 13_000 } else { 2000 });
+    let bound = 2 * FRAME + 4 * max_block;
+    // clocks from the LCD's position now to the end of the vertical blank that is in
+    // progress or comes next: run_frame may not return before that
+    let need = {
+      let (mode, dots, line) = ppu_pos(&core.memory.io.video);
+      let in_line = match mode {
+        2 | 1 => dots,
+        3 => 80 + dots,
+        _ => 268 + dots,
+      };
+      FRAME - ((line as u64) * 456 + in_line as u64) % FRAME
+    };
     ctx.intent(&[pidx, 1 << 40, pc as u64, stepper as u64]);
     verif::start(false);
     verif::set_deliver_limit(bound + 4 * FRAME);
@@ -348,10 +370,16 @@ fn check_program(ctx: &mut Ctx, prog: &program::Program, pidx: u64, stepper: Ste
           report(ctx, "run_frame-too-long", 0, format!("run_frame() delivered {} clocks, more than two frame periods plus one block ({})", delivered, bound));
           return;
         }
-        if core.memory.io.video.get_current_mode() == 1 {
+        if delivered < need {
+          report(ctx, "run_frame-returns-early", 0, format!("run_frame() from PC {:04X} returned after {} clocks, {} before the end of the vertical blank", pc, delivered, need - delivered));
+          return;
+        }
+        // (a block shorter than the visible part of a frame cannot end in the following vertical blank)
+        if max_block < 16_000 && core.memory.io.video.get_current_mode() == 1 {
           report(ctx, "run_frame-postcondition", 0, "run_frame() returned while the LCD is still in vertical blank".to_string());
           return;
         }
+        t.frame_margin_min = t.frame_margin_min.min(delivered - need);
       }
     }
   }
@@ -362,7 +390,7 @@ pub fn run(ctx: &mut Ctx) {
   let seed = ctx.seed;
   let nprog: u64 = if thorough { 1200 } else { 160 };
   let steps: u64 = if thorough { 30_000 } else { 12_000 };
-  let mut t = Totals { steps_run: 0, steps_suspended: 0, dispatches: 0, consumed: 0, delivered: 0, frames: 0, max_frame_clocks: 0, static_checked: 0, static_ambiguous: 0, carried_five: 0 };
+  let mut t = Totals { steps_run: 0, steps_suspended: 0, dispatches: 0, consumed: 0, delivered: 0, frames: 0, max_frame_clocks: 0, frame_margin_min: u64::MAX, frame_synchronous: 0, static_checked: 0, static_ambiguous: 0, carried_five: 0 };
   for p in 0..nprog {
     if !ctx.mine(p) {
       continue;
@@ -393,6 +421,28 @@ pub fn run(ctx: &mut Ctx) {
     }
     ctx.distinct_key(hash_words(&[nprog, 0xb10c]));
   }
+  // and one whose blocks take as long as a block can: 65536 machine cycles, 262144 clocks
+  if ctx.mine(nprog + 1) {
+    let (image, description) = crate::gen::pressure::long_duration_image();
+    let prog = program::Program { image, cart_type: 0x00, banks: 2, features: Default::default(), description };
+    for &st in [Stepper::Update, Stepper::RunCodeBlock].iter() {
+      check_program(ctx, &prog, nprog + 1, st, 40, &mut t);
+    }
+    ctx.distinct_key(hash_words(&[nprog + 1, 0xb10d]));
+  }
+  // and loops that are one block of exactly one frame period: whatever the emulator samples
+  // between blocks never changes
+  for lead in 0..6u64 {
+    if ctx.mine(nprog + 2 + lead) {
+      let (image, description) = crate::gen::pressure::frame_synchronous_image((lead * 331) as usize);
+      let prog = program::Program { image, cart_type: 0x00, banks: 2, features: Default::default(), description };
+      for &st in [Stepper::Update, Stepper::RunCodeBlock].iter() {
+        check_program(ctx, &prog, nprog + 2 + lead, st, 12, &mut t);
+      }
+      t.frame_synchronous += 1;
+      ctx.distinct_key(hash_words(&[nprog + 2 + lead, 0xb10e]));
+    }
+  }
   ctx.count("evaluations", t.steps_run + t.steps_suspended);
   ctx.count("steps:running", t.steps_run);
   ctx.count("steps:halted-or-stopped", t.steps_suspended);
@@ -404,6 +454,7 @@ pub fn run(ctx: &mut Ctx) {
   ctx.count("steps-that-included-5-dispatch-cycles", t.carried_five);
   ctx.count("run_frame-calls", t.frames);
   ctx.count("run_frame-max-clocks", t.max_frame_clocks);
+  ctx.count("frame-synchronous-loops", t.frame_synchronous);
 }
 
 pub fn on_crash(intent: &[u64], text: &str, status: &str, _err: &str) -> Option<(String, String)> {
